@@ -29,8 +29,10 @@
    set of commands run).  A command run ([run_edge]) is what StartEdge + the command +
    FinishCommand do: lock tick, output writes (restat: write-if-changed), then one log entry per
    output with ninja's record_mtime rule, taken verbatim from CrashDefs.record_mtime. *)
+(* CrashDefs is imported FIRST and only used qualified (CrashDefs.record_mtime, ...): several of its
+   names (deps_kind, newer, load_deps, ...) are also names of ScanDefs, which must win. *)
+From NinjaV Require Import Engine.CrashDefs.
 From NinjaV Require Import Base.Bytes Engine.ScanDefs Engine.ScanSpec.
-From NinjaV Require Engine.CrashDefs.
 Local Open Scope Z_scope.
 
 Definition content := N.
@@ -352,6 +354,13 @@ Example converged9 :
   | _ => False
   end.
 Proof. vm_compute. split; reflexivity. Qed.
+(* why [hist_ok] restricts edits to sources: an output overwritten by hand is newer than its
+   inputs, ninja keeps it, and it is not what a clean build makes *)
+Definition hist_tamper : list hstep := hist5 ++ [Edit 3 99; Build [5%nat]].
+Example tamper_output_stale :
+  let st := run_hist cmd g st0 hist_tamper in
+  hist_ok g hist_tamper = false /\ content_of st 3%nat <> clean_of cmd g st 3%nat.
+Proof. vm_compute. split; [reflexivity|discriminate]. Qed.
 End Ex.
 
 (* ================================================================== the documented always-dirty case *)
